@@ -4,7 +4,8 @@ use mbvlib::spec::*;
 use mbvlib::*;
 use multiboot2::{BootInformation, BootInformationHeader, TagHeader, TagIter};
 
-const TYPES: [u32; 4] = [1, 0, 3, 0x1337];
+// 0x0001_0003: a type whose low half equals the module type
+const TYPES: [u32; 5] = [1, 0, 3, 0x1337, 0x0001_0003];
 
 fn sizes(p: usize) -> Vec<u32> {
     let mut v: Vec<u32> = vec![8];
@@ -494,7 +495,7 @@ fn run(ctx: &mut Ctx) {
     let quick = ctx.quick();
     let arena = Arena::new(2);
     let max_p = if quick { 32 } else if ctx.dev_profile() { 40 } else { 48 };
-    ctx.bound("walk", format!("payload lengths 0,8,..,{}; at every offset the reference walk reaches: type in {{1,0,3,0x1337}} x size in 0..=P+17 + {{0x7FFFFFFF,0xFFFFFFF9,0xFFFFFFFF}} (every tiling and every way of failing to tile); marker payload bytes; TagIter::new on the raw payload and, when the last 8 bytes are an end tag, BootInformation::load + tags() + module_tags(); region flush against a guard page, fills A/B", max_p));
+    ctx.bound("walk", format!("payload lengths 0,8,..,{}; at every offset the reference walk reaches: type in {{1,0,3,0x1337,0x10003}} x size in 0..=P+17 + {{0x7FFFFFFF,0xFFFFFFF9,0xFFFFFFFF}} (every tiling and every way of failing to tile); marker payload bytes; TagIter::new on the raw payload and, when the last 8 bytes are an end tag, BootInformation::load + tags() + module_tags(); region flush against a guard page, fills A/B", max_p));
     let mut p = 0;
     while p <= max_p {
         let alpha = sizes(p);
@@ -518,7 +519,7 @@ fn run(ctx: &mut Ctx) {
                 let mut pl: Vec<u8> = vec![];
                 for i in 0..n {
                     let sym = (code / 4usize.pow((i % period) as u32)) % 4;
-                    let (typ, size) = [(3u32, 16usize), (3, 21), (1, 12), (0, 8)][sym];
+                    let (typ, size) = [(3u32, 16usize), (3, 21), (if i % 2 == 0 { 1 } else { 0x0001_0003 }, 12), (0, 8)][sym];
                     let mut t = vec![0u8; round8(size)];
                     for (j, b) in t.iter_mut().enumerate() {
                         *b = marker(i * 24 + j, 2);
